@@ -321,7 +321,7 @@ def c04(tier, seed):
     v3 = validate_family(res, "C04", tr3, cs3, "timelimit")
     add_cov(res, v3, m3["runs"], [], "timelimit")
     res.coverage["timelimit_status_histogram"] = m3["status_hist"]
-    if m3["status_hist"].get("MaxTime", 0) == 0:
+    if m3["status_hist"].get("MaxTime", 0) == 0 and not res.violations:
         raise ToolError("vacuity guard: no MaxTime verdict produced by the sleep-injection corpus")
     return res
 
